@@ -30,7 +30,8 @@ c11 = _Lazy()
 ID = "T11"
 THEOREMS = ["T11_gen_play_one_game_eq", "T11_gen_play_loop", "T11_gen_play_outcomes", "T11_gen_results_eq",
             "T11_gen_logits_agrees", "T11_gen_encode_move_eq", "T11_gen_move_tables", "T11_gen_from_config_eq",
-            "T11_gen_transcript_chain", "T11_gen_stops_exactly", "T11_gen_result_correct", "T11_gen_labels_correct"]
+            "T11_gen_transcript_chain", "T11_gen_stops_exactly", "T11_gen_result_correct", "T11_gen_labels_correct",
+            "T11_engine_kids_ok", "T11_gen_real_engine"]
 MODEL_TARGETS = ["model/Tak.vo", "model/Road.vo", "model/PySem.vo", "model/SelfPlay.vo", "model/SelfPlaySem.vo",
                  "model/Harness.vo", "model/Lit.vo", "gen/GameGen.vo", "gen/EncodingGen.vo", "gen/SelfPlayGen.vo"]
 TRUSTED_BASE = [
@@ -163,7 +164,9 @@ def _games(run):
     sc = c11._scripted_games(run, 60 if run.quick else 400)
     run.rng.shuffle(sc)
     sc = sc[:60 if run.quick else 400]
-    return sc + c11._free_games(run, 25 if run.quick else 200) + _defective(run)
+    # a few games of the REAL engine (mcts.MCTS on tak_ext): its trees carry the child positions the loop reads
+    real = [(m, g) for m, g in c11._mcts_games(run, 8 if run.quick else 60) if m.get("size", 3) <= 4]
+    return sc + c11._free_games(run, 25 if run.quick else 200) + real + _defective(run)
 
 
 def correspondence(run):
